@@ -229,6 +229,35 @@ class Rig:
             return seen, ("exc", type(ex).__name__, str(ex)[:80])
         return seen, ("ok", x)
 
+    def read_fresh(self, key, v, env=NOMINAL):
+        """the same observation through a sensor object that was just created (spare analog port): the very first voltage a
+        driver object ever sees may be any voltage at all"""
+        import gc
+        from wpilib.simulation import AnalogInputSim
+        S = BY_KEY[key]
+        self.apply(env)
+        port = 3 + [x["key"] for x in SENSORS].index(key)
+        sensor = getattr(self.mod, S["cls"])(port)
+        ain = AnalogInputSim(sensor.distance)
+        ain.setVoltage(v)
+        seen = sensor.distance.getVoltage()
+        try:
+            out = ("ok", sensor.getDistance())
+        except Exception as ex:  # noqa: BLE001
+            out = ("exc", type(ex).__name__, str(ex)[:80])
+        del ain, sensor
+        gc.collect()
+        return seen, out
+
+    def read_held(self, key, v, env=NOMINAL, hold=1.5):
+        """the voltage is held: read, let `hold` seconds of FPGA time pass, read again -> the second outcome"""
+        import hal.simulation
+        import wpilib.simulation
+        self.read(key, v, env)
+        hal.simulation.pauseTiming()
+        wpilib.simulation.stepTiming(hold)
+        return self.read(key, v, env)
+
     def set(self, key, d, env=NOMINAL):
         """helper.setDistance(d), the roboRIO in state env ->
         (outcome of the call, helper.getDistance(), voltage, reading)"""
@@ -1019,6 +1048,19 @@ def run(ctx):
         ob("impl:AnalogInputSim.setVoltage(v) -> AnalogInput.getVoltage() == v on every sample",
            not passthrough_bad, repr(passthrough_bad[:3]))
         ob("impl:getDistance() returns a finite number for every sampled voltage", not vbad, repr(vbad[:3]))
+        fresh_bad, held_bad = [], []
+        for S in SENSORS:
+            for v in special_voltages(S):
+                o = rig.read_fresh(S["key"], v)[1]
+                if oracle_voltage(S, v, o):
+                    fresh_bad.append((S["key"], v, o))
+            for v in [code_volts(c) for c in (7, 300, 900, 2000, 3500)] + special_voltages(S)[:4]:
+                o = rig.read_held(S["key"], v)[1]
+                if oracle_voltage(S, v, o):
+                    held_bad.append((S["key"], v, o))
+        ob("impl:a driver object that was just created reads every special voltage (0, negative, infinite, huge ...) inside the clauses",
+           not fresh_bad, repr(fresh_bad[:3]))
+        ob("impl:a voltage that is held reads the same again after 1.5 s of FPGA time", not held_bad, repr(held_bad[:3]))
         ob("impl:setDistance(d) then getDistance() returns a finite number for every sampled distance",
            not dbad, repr(dbad[:3]))
         ob("impl:helper.getDistance() returns the d that was set", not gbad, repr(gbad[:3]))
@@ -1239,6 +1281,25 @@ def search_violations(ctx, state):
                     viol = v_violation(S, v, o, bad[0], bad[1], env)
                     viol["observed_nominal"] = repr(o0)
                     found.append((order[bad[0]], viol))
+        # a driver object that was just created, at the special voltages; and voltages that are held for 1.5 s of FPGA time
+        if not per:
+            for v in special_voltages(S) + [code_volts(c) for c in range(0, NCODES, 256)]:
+                o = rig.read_fresh(K, v)[1]
+                bad = oracle_voltage(S, v, o)
+                if bad:
+                    viol = v_violation(S, v, o, bad[0], bad[1] + " (the first reading of a driver object that was just created)")
+                    viol["mode"] = "voltage-fresh"
+                    found.append((order[bad[0]], viol))
+                    break
+            else:
+                for v in [code_volts(c) for c in range(64, NCODES, 128)] + special_voltages(S):
+                    o = rig.read_held(K, v)[1]
+                    bad = oracle_voltage(S, v, o)
+                    if bad:
+                        viol = v_violation(S, v, o, bad[0], bad[1] + " (the same voltage read again after 1.5 s of FPGA time)")
+                        viol["mode"] = "voltage-held"
+                        found.append((order[bad[0]], viol))
+                        break
         # monotone: within one state of the roboRIO (ADC codes first)
         for env in sorted(pairs, key=erank):
             m = oracle_monotone([p for p in pairs[env] if _is_code(p[0])]) or oracle_monotone(pairs[env])
@@ -1312,6 +1373,12 @@ def replay(ctx, obj):
             o0 = rig.read(K, v, NOMINAL)[1]
             print("%s: the same voltage on the nominal roboRIO: getDistance() -> %r" % (S["cls"], o0))
             bad = oracle_pin_only(S, v, o0, o)
+    elif obj["mode"] in ("voltage-fresh", "voltage-held"):
+        v = unhex(obj["voltage_hex"])
+        seen, o = (rig.read_fresh if obj["mode"] == "voltage-fresh" else rig.read_held)(K, v, env)
+        print("%s (%s): AnalogInputSim.setVoltage(%r); getDistance() -> %r" % (
+            S["cls"], "a driver object that was just created" if obj["mode"] == "voltage-fresh" else "read again after 1.5 s of FPGA time", v, o))
+        bad = oracle_voltage(S, v, o)
     elif obj["mode"] == "voltage-pair":
         v1, v2 = [unhex(h) for h in obj["voltages_hex"]]
         o1, o2 = rig.read(K, v1, env)[1], rig.read(K, v2, env)[1]
